@@ -132,6 +132,61 @@ def post_model(ctx, T, run_model):
             forged.append(decc(1, comb + rb(rng, ext), ad, n, k))
         nforged += len(forged)
         L += forged
+    # ---- the other API families the property names: sign_open, auth / onetimeauth verify, box open
+    LL = 2 ** 252 + 27742317777372353535851937790883648493
+    extra_f = []
+    for mlen in ((0, 1, 32, 77) if not full else (0, 1, 15, 32, 33, 64, 77, 128, 200)):
+        seed = rb(rng, 32); m = rb(rng, mlen)
+        pk, sk = run_model(["sign.seed_keypair %s" % hexs(seed)])[0].split(" ")
+        sig = bytes.fromhex(run_model(["sign.detached %s %s" % (hexs(m), sk)])[0])
+        sm = sig + m
+        L.append("sign.open %s %s" % (hexs(sm), pk))                      # genuine
+        for i in range(len(sm)):                                          # one bit in every byte, every bit of the two scalar top bytes
+            for bit in (range(8) if i in (31, 62, 63) or full else [rng.randrange(8)]):
+                x = bytearray(sm); x[i] ^= 1 << bit
+                extra_f.append("sign.open %s %s" % (hexs(bytes(x)), pk))
+        S = int.from_bytes(sig[32:], "little")
+        for k in range(1, 16):                                            # S + k*L: same residue, different encoding
+            if S + k * LL < 2 ** 256:
+                extra_f.append("sign.open %s %s" % (hexs(sig[:32] + (S + k * LL).to_bytes(32, "little") + m), pk))
+        for cut in sorted(set([0, 1, 31, 32, 63, 64, len(sm) - 1]) & set(range(len(sm)))):
+            extra_f.append("sign.open %s %s" % (hexs(sm[:cut]), pk))
+        extra_f.append("sign.open %s %s" % (hexs(sm + b"\x00"), pk))
+        pkb = bytearray(bytes.fromhex(pk)); pkb[rng.randrange(32)] ^= 1 << rng.randrange(8)
+        extra_f.append("sign.open %s %s" % (hexs(sm), hexs(bytes(pkb))))
+    for (variant, tl) in (("hmacsha256", 32), ("hmacsha512", 64), ("hmacsha512256", 32), ("poly1305", 16)):
+        for mlen in (0, 1, 16, 17, 64, 129):
+            k = rb(rng, 32); m = rb(rng, mlen)
+            op = {"poly1305": "onetimeauth %s %s" % (hexs(k), hexs(m))}.get(variant, "auth.%s %s %s" % (variant, hexs(k), hexs(m)))
+            tag = bytes.fromhex(run_model([op])[0].split(" ")[0])[:tl]
+            L.append("auth.verify %s %s %s %s" % (variant, hexs(tag), hexs(m), hexs(k)))
+            for i in range(tl):
+                x = bytearray(tag); x[i] ^= 1 << rng.randrange(8)
+                extra_f.append("auth.verify %s %s %s %s" % (variant, hexs(bytes(x)), hexs(m), hexs(k)))
+                for d in (16, 32):
+                    if i + d < tl:
+                        x = bytearray(tag); dl = 1 << rng.randrange(8); x[i] ^= dl; x[i + d] ^= dl
+                        extra_f.append("auth.verify %s %s %s %s" % (variant, hexs(bytes(x)), hexs(m), hexs(k)))
+            for x in flips(rng, m, True):
+                extra_f.append("auth.verify %s %s %s %s" % (variant, hexs(tag), hexs(x), hexs(k)))
+            kx = bytearray(k); kx[rng.randrange(32)] ^= 1 << rng.randrange(8)
+            extra_f.append("auth.verify %s %s %s %s" % (variant, hexs(tag), hexs(m), hexs(bytes(kx))))
+    for v in ("xsalsa", "xchacha"):
+        for mlen in (0, 1, 33):
+            sa, sb2 = rb(rng, 32), rb(rng, 32)
+            pka, ska = run_model(["box.seed_keypair %s" % hexs(sa)])[0].split(" ")
+            pkb2, skb = run_model(["box.seed_keypair %s" % hexs(sb2)])[0].split(" ")
+            n = rb(rng, 24); m = rb(rng, mlen)
+            c = bytes.fromhex(run_model(["box.easy %s %s %s %s %s" % (v, hexs(m), hexs(n), pkb2, ska)])[0].split(" ")[-1])
+            L.append("box.open %s %s %s %s %s" % (v, hexs(c), hexs(n), pka, skb))
+            for x in flips(rng, c, True):
+                extra_f.append("box.open %s %s %s %s %s" % (v, hexs(x), hexs(n), pka, skb))
+            for cut in range(len(c)):
+                extra_f.append("box.open %s %s %s %s %s" % (v, hexs(c[:cut]), hexs(n), pka, skb))
+            nx = bytearray(n); nx[rng.randrange(24)] ^= 1
+            extra_f.append("box.open %s %s %s %s %s" % (v, hexs(c), hexs(bytes(nx)), pka, skb))
+    L += extra_f
+    nforged += len(extra_f)
     ctx.stats["forged_inputs"] = nforged
     ctx.stats["valid_tuples"] = len(T)
     return L
@@ -142,6 +197,8 @@ def predicate(ctx, line, impl, model):
     length, or bytes other than untouched/filler violates it"""
     f = impl.split(" ")
     m = model.split(" ")
+    if line.startswith("auth.verify") and m[0] == "-1":
+        return (True, "forged authenticator accepted") if f[0] == "0" else (True, "return code differs from the model")
     if m[0] == "-1":
         if f[0] == "0":
             return True, "forged input accepted (return code 0)"
